@@ -865,7 +865,8 @@ export class ConstRuntype extends BaseRuntype {
       case "number":
         return generateHashFromNumbers([this.value]);
       case "boolean":
-        return generateHashFromString(this.value ? "true" : "false");
+        // not the hash of the string "true" / "false": the literal types true and "true" differ
+        return generateHashFromNumbers([booleanHash, this.value ? 1 : 0]);
     }
   }
   hash256(ctx: Hash256Context): void {
